@@ -25,6 +25,7 @@ CONSTANTS
     LotTargets, \* set of functions [SUBSET C -> Int \ {0}] (rebalance to numbers of contracts)
     Reqs,       \* set of rebalancing requests (see LedgerOps) for op "rebal"
     Steps,      \* set of clock increments (years) for rebalances / accruals
+    MaxRebal,   \* bound on checkpointed rebalances (keeps exact rationals within TLC's 32-bit integers)
     MaxDepth
 
 VARIABLES st, h, track, clk, last, hist, n
@@ -106,7 +107,8 @@ DoRebalance(req, dt, tag) ==
         r == RebalanceF(st, req, t)
         execp(c) == AcqPrice(st, c, Sign(r.trades[c]))
         done == r.trades # <<>> /\ r.out \in {"ok", "broke"}     \* trades were executed
-    IN  /\ st' = r.st
+    IN  /\ track < MaxRebal
+        /\ st' = r.st
         /\ clk' = t
         /\ h' = [paid |-> [c \in C |-> IF done /\ c \in DOMAIN r.trades
                                        THEN Add(h.paid[c], Mul(r.trades[c], execp(c))) ELSE h.paid[c]],
@@ -114,7 +116,7 @@ DoRebalance(req, dt, tag) ==
                  interest |-> Add(h.interest, r.interest)]
         /\ track' = IF r.out = "ok" THEN track + 1 ELSE track
         /\ Log([op |-> tag, c |-> "-", x |-> req, y |-> t, out |-> r.out, nlv |-> Nlv(r.st),
-                pre |-> r.pre, post |-> r.post, trades |-> r.trades, interest |-> r.interest])
+                pre |-> r.pre, post |-> r.post, trades |-> r.trades, interest |-> r.interest, edge |-> r.edge])
 
 Lots(tgt, dt) ==
     /\ "lots" \in Ops
@@ -228,7 +230,7 @@ RebalanceNeedsQuotes ==
 \* C03  rebalancing reaches the target (no threshold); evaluated on the state after the rebalance
 
 TargetReached ==
-    (last.op = "rebalance" /\ last.out \in {"ok", "broke"} /\ IsZero(last.x.thr) /\ last.x.fractional) =>
+    (last.op = "rebalance" /\ last.out \in {"ok", "broke"} /\ last.pre # NaN /\ IsZero(last.x.thr) /\ last.x.fractional) =>
         \A c \in C :
             IF Targeted(last.x, c)
             THEN IF last.x.measure = "lots" THEN st.pos[c] = last.x.alloc[c]
@@ -241,11 +243,42 @@ FrictionlessNlv ==
     (last.op = "rebalance" /\ last.out = "ok" /\ IsZero(Fixed) /\ IsZero(Prop)
         /\ \A c \in C : (st.bid[c] = st.ask[c])) => last.post = last.pre
 
-\* C12  trade filtering
+\* immediately repeating the same request in a frictionless market trades nothing
+SecondRebalanceIdle ==
+    [][ (last.op = "rebalance" /\ last.out = "ok" /\ last'.op = "rebalance" /\ last'.out = "ok"
+            /\ last'.x = last.x /\ IsZero(last.x.thr) /\ last.x.fractional
+            /\ IsZero(Fixed) /\ IsZero(Prop) /\ IsZero(Rate) /\ IsZero(Markup)
+            /\ \A c \in C : st.bid[c] = st.ask[c])
+          => last'.trades = <<>> ]_vars
+
+\* C12  trade filtering, stated declaratively on the pre-state (positions and quotes of st, NLV = last'.pre)
+Imb(s, r, nlv, c) == Sub(TargetLots(s, r, nlv, c), s.pos[c])
+ImbWeight(s, nlv, c, imb) == Div(Mul(Mul(RM(Mult[c]), imb), AcqPrice(s, c, Sign(imb))), nlv)
+
 TradeIff ==
+    [][ (last'.op = "rebalance" /\ last'.out \in {"ok", "broke"} /\ last'.pre # NaN) =>
+          LET r == last'.x  nlv == last'.pre
+          IN  \A c \in C :
+                LET imb  == Imb(st, r, nlv, c)
+                    held == ~IsZero(st.pos[c]) /\ ~Targeted(r, c)
+                    q    == IF r.fractional THEN imb ELSE RM(TruncI(imb))
+                    must == /\ ~IsZero(imb)
+                            /\ (held \/ Ge(RAbs(ImbWeight(st, nlv, c, imb)), r.thr))
+                            /\ ~IsZero(q)
+                IN  /\ (c \in DOMAIN last'.trades) <=> must
+                    /\ (c \in DOMAIN last'.trades) => last'.trades[c] = q ]_vars
+
+\* no zero-sized trade, whole lots are non-zero integers
+NoZeroTrades ==
     (last.op = "rebalance" /\ last.out \in {"ok", "broke"}) =>
         /\ \A c \in DOMAIN last.trades : ~IsZero(last.trades[c])
         /\ ~last.x.fractional => \A c \in DOMAIN last.trades : IsInt(last.trades[c])
+
+\* a rebalance is rejected only for a reason the properties allow: a quote that is needed is missing
+\* (imbalances below one lot are skipped, not failing)
+NoSpuriousFailure ==
+    (last.op = "rebalance" /\ last.out = "error") =>
+        \E c \in C : (Targeted(last.x, c) \/ ~IsZero(st.pos[c])) /\ (st.bid[c] = NaN \/ st.ask[c] = NaN)
 
 -----------------------------------------------------------------------------
 \* coverage classification of trades (anti-vacuity: every kind must occur)
